@@ -212,7 +212,22 @@ class Pool:
             if o is not None:
                 self.ops.append('reads,%d' % o)
         elif k == 'self':
-            self.self_op(rng.choice(known))
+            o = rng.choice(known)
+            r = rng.random()
+            if r < 0.6:
+                self.self_op(o)
+            elif r < 0.75:
+                nv = rstr(rng, rng.choice(SIZES))
+                self.ops.append('utf8ref,%d,%s,M=set:%s' % (o, hx(nv), hx(nv)))
+                self.val[o] = nv
+            elif r < 0.9 or not dead:
+                src = rng.choice(known)
+                self.ops.append('svlv,%d,%d,M=set:%s' % (o, src, hx(self.val[src])))
+                self.val[o] = self.val[src]
+            else:
+                src, res = rng.choice(known), rng.choice(dead)
+                self.ops.append('fvlv,%d,%d,M=copymove:%s' % (res, src, hx(self.val[src])))
+                self.val[res] = self.val[src]
         elif k == 'mctor':
             o, s = rng.choice(dead), rng.choice(live)
             self.ops.append('mctor,%d,%d' % (o, s))
@@ -279,6 +294,17 @@ def directed_histories(rng):
                     cat = p.val[0] + p.val[2]
                     p.ops += ['append,0,2,M=cat:%s' % hx(cat), 'reads,1', 'del,0', 'reads,1', 'set,1,41', 'del,1', 'del,2']
                 out.append(p.ops)
+        for rep in range(2):
+            p = Pool(rng, 4)
+            v0 = rstr(rng, n)
+            p.new(0, v0)
+            p.new(1, rstr(rng, 20))
+            nv = rstr(rng, 18 if rep else 3)
+            p.ops.append('utf8ref,0,%s,M=set:%s' % (hx(nv), hx(nv))); p.val[0] = nv
+            p.ops.append('fvlv,2,0,M=copymove:%s' % hx(nv)); p.val[2] = nv
+            p.ops.append('svlv,1,0,M=set:%s' % hx(nv)); p.val[1] = nv
+            p.ops += ['reads,0', 'reads,1', 'reads,2', 'del,0', 'del,1', 'del,2']
+            out.append(p.ops)
         for kind in ('selfset', 'selfview', 'selfasg', 'selfappend'):
             for rep in range(2):
                 p = Pool(rng, 4)
@@ -319,7 +345,7 @@ def failing_op(pool):
     o = rng.choice(live)
     kind = rng.choice(['setfail', 'setfail', 'setcfail', 'ctorfail', 'appfail', 'plusfail', 'set16fail', 'set32fail',
                        'from16fail', 'hexfail', 'b64fail', 'fmtfail', 'latin1fail', 'setmfail', 'ctorbuffail',
-                       'fmtmovefail', 'fmtmovefail', 'fmtmovestd'])
+                       'fmtmovefail', 'fmtmovefail', 'fmtmovestd', 'fmtmoveuser'])
     if kind in ('setfail', 'setcfail', 'ctorfail', 'setmfail', 'ctorbuffail'):
         b = rng.choice(BAD_UTF8)
         if kind == 'setcfail':
@@ -358,6 +384,10 @@ def failing_op(pool):
         k, e = rng.choice(FMT_MOVE_FAIL)
         # the callee keeps copies of the argument while it runs (by-value parameter, closure): temporaries
         pool.ops.append('fmtmovefail,%d,%s,M=throw:%s:%s/%s' % (o, k, e, hx(pool.val[o]), hx(pool.val[o])))
+    elif kind == 'fmtmoveuser':
+        b = rstr(rng, rng.choice(SIZES))
+        k, e = rng.choice([('missing', 'out_of_range'), ('later', 'bad_format'), ('open', 'bad_format')])
+        pool.ops.append('fmtmoveuser,%d,%s,%s,M=throw:%s:%s/%s' % (o, hx(b), k, e, hx(b), hx(b)))
     elif kind == 'fmtmovestd':
         b = rstr(rng, rng.choice(SIZES))
         pool.ops.append('fmtmovestd,%d,%s,%s,M=throw:%s:%s' % (o, hx(b), *rng.choice([('missing', 'out_of_range'), ('open', 'bad_format')]), hx(b)))
@@ -434,6 +464,8 @@ def directed_failing(rng):
                 b = bytes(p.val[0])
                 for k, e in (('missing', 'out_of_range'), ('open', 'bad_format')):
                     p.ops.append('fmtmovestd,0,%s,%s,M=throw:%s:%s' % (hx(b), k, e, hx(b)))
+                for k, e in (('missing', 'out_of_range'), ('later', 'bad_format'), ('open', 'bad_format')):
+                    p.ops.append('fmtmoveuser,0,%s,%s,M=throw:%s:%s/%s' % (hx(b), k, e, hx(b), hx(b)))
                 bad = BAD_UTF8[0]
                 p.ops.append('setmfail,0,%s,M=throw:unicode_error:%s' % (hx(bad), hx(bad)))
                 p.ops.append('ctorbuffail,0,%s,M=throw:unicode_error:%s' % (hx(bad), hx(bad)))
